@@ -63,6 +63,12 @@ def _modules(case):
 
 
 def run_case(case):
+    with core.grad_ctx(case.get('ctx')):
+        r = _run_case(case)
+    return r.label('ctx_' + case['ctx']) if case.get('ctx', 'default') != 'default' else r
+
+
+def _run_case(case):
     r = Result()
     dim, w, mode, J = case['dim'], case['wave'], case['mode'], case['J']
     size = list(case['size'])
